@@ -116,6 +116,11 @@ def main():
         "distribution": res.dist, "known_findings_hit": known_hits,
         "broken_obligations": broken, "build": {k: binfo[k] for k in ("gen_ok", "make_ok", "ocaml_ok", "build_s")},
     }
+    if os.path.exists(os.path.join(C.COQ, "Properties", pid + "b.v")):
+        cov["checker_cmd"] += f" ; coqc -Q . Verif Properties/{pid}b.v"
+        cov["trusted_base"].append("tie by proof (Properties/%sb.v): the translator tools/py2jit.py + tools/gen.py (Python ast -> Jit/Lang.v terms, fail-closed, "
+                                   "regenerated from /repo on every run), the interpreter Jit/Interp.v as the meaning of the translated text (floats = exact rationals), "
+                                   "partial correctness only (OutOfFuel allowed) unless the theorem name says total" % pid)
     if chk is not None:
         cov["coqchk"] = {"ok": chk["ok"], "axioms": chk["axioms"]}
         cov["trusted_base"].append("coqchk -o (independent checker) accepted the property file and its dependencies; axioms it lists: %s" % (chk["axioms"] or "none"))
